@@ -210,6 +210,8 @@ def match_known(v: Dict[str, Any], known: List[Dict[str, Any]]) -> Optional[Dict
             continue
         if "detail_regex" in k and not re.search(k["detail_regex"], v.get("detail", ""), re.S):
             continue
+        if "features_all" in k and not set(k["features_all"]) <= set(v.get("features") or []):
+            continue
         return k
     return None
 
